@@ -81,6 +81,7 @@ func indexUses(fn *ssa.Function, isSlice func(ssa.Value) bool) []ssa.Value {
 
 func runC10(c *Ctx) {
 	p := c.P
+	debugDumpA6(p)
 	// ---------- R1
 	c.Rule("R1", "ORD+GATE", "Service.Start: extensions.Start ≺ NotifyConfig ≺ pipelines.StartAll ≺ NotifyPipelineReady, each reached only after the previous succeeded; Service.Shutdown: NotifyPipelineNotReady ≺ pipelines.ShutdownAll ≺ extensions.Shutdown ≺ telemetry shutdown, all on every path, single return", 8)
 	find := func(fn *ssa.Function, pkg, typ, name string) ssa.CallInstruction {
@@ -198,13 +199,14 @@ func runC10(c *Ctx) {
 		// argument is the graph field
 		_, gpath := fieldChain(sorts[0].Common().Args[0])
 		c.Check(len(gpath) > 0 && gpath[len(gpath)-1] == "componentGraph", "Graph."+spec.name+" sorts the component graph", p.Pos(sorts[0].Pos()), "topo.Sort(g.componentGraph)", "sorts something other than the component graph")
-		idx := indexUses(fn, isNodes)
+		// by index (`nodes[i]`, `range nodes`) or by range-over-func (`range slices.Backward(nodes)`): robust_A6.go
+		idx := sliceWalksA6(fn, isNodes)
 		if len(idx) == 0 {
 			c.Bad("Graph."+spec.name+" walks the topological order", p.Pos(fn.Pos()), "the loop does not index the topo.Sort result (order replaced or recomputed)")
 			continue
 		}
 		for _, ix := range idx {
-			d := loopDir(ix)
+			d := ix.dir
 			why := "descending"
 			if spec.want > 0 {
 				why = "ascending"
@@ -212,7 +214,7 @@ func runC10(c *Ctx) {
 			if d == 0 {
 				c.Undecided("Graph."+spec.name+" loop direction", p.Pos(fn.Pos()), "index is not a recognised counted-loop induction variable")
 			} else {
-				c.Check(d == spec.want, "Graph."+spec.name+" loop direction", p.Pos(ix.Pos()), why, "the topological order is walked in the wrong direction: components start before their consumers / stop before their producers")
+				c.Check(d == spec.want, "Graph."+spec.name+" loop direction", p.Pos(ix.pos), why, "the topological order is walked in the wrong direction: components start before their consumers / stop before their producers")
 			}
 		}
 		// the sorted slice is only read (len / index loads)
@@ -235,7 +237,7 @@ func runC10(c *Ctx) {
 						}
 					}
 				case *ssa.Call:
-					if builtinName(x) != "len" {
+					if builtinName(x) != "len" && !readOnlyIterA6(x) {
 						clean = false
 					}
 				case *ssa.DebugRef:
@@ -258,37 +260,46 @@ func runC10(c *Ctx) {
 			continue
 		}
 		fn := p.SSAFunc(m)
-		lc := lifecycleCalls(fn, spec.name)
+		// the lifecycle call may live in an extracted helper or in a range-over-func body (robust_A6.go)
+		lc := lifecycleCallsDeepA6(fn, spec.name)
 		if len(lc) != 1 {
 			c.Bad("Extensions."+spec.name+" invokes each extension's "+spec.name, p.Pos(fn.Pos()), fmt.Sprintf("%d lifecycle call sites", len(lc)))
 			continue
 		}
-		idx := indexUses(fn, func(v ssa.Value) bool { return isFieldAccess(v, extT, "extensionIDs") })
+		isIDs := func(v ssa.Value) bool { return isFieldAccess(v, extT, "extensionIDs") }
+		idx := sliceWalksA6(fn, isIDs)
 		if len(idx) == 0 {
 			c.Bad("Extensions."+spec.name+" walks the computed order", p.Pos(fn.Pos()), "the loop does not index extensionIDs")
 			continue
 		}
 		for _, ix := range idx {
-			d := loopDir(ix)
+			d := ix.dir
 			if d == 0 {
 				c.Undecided("Extensions."+spec.name+" loop direction", p.Pos(fn.Pos()), "unrecognised induction variable")
 			} else {
-				c.Check(d == spec.want, "Extensions."+spec.name+" loop direction", p.Pos(ix.Pos()), "as required", "extensions are walked in the wrong direction: a dependent extension starts before / stops after the extension it depends on")
+				c.Check(d == spec.want, "Extensions."+spec.name+" loop direction", p.Pos(ix.pos), "as required", "extensions are walked in the wrong direction: a dependent extension starts before / stops after the extension it depends on")
 			}
 		}
 		// the component invoked is the one looked up with the indexed id
-		recv := lc[0].Common().Value
+		recv := lc[0].call.Common().Value
 		okProv := false
-		for v := range backSlice(recv) {
+		provVals, _ := deepSliceA6(recv, lc[0].chain)
+		for v := range provVals {
 			if lk, ok := v.(*ssa.Lookup); ok && isFieldAccess(lk.X, extT, "extMap") {
-				for w := range backSlice(lk.Index) {
-					if ia, ok := w.(*ssa.IndexAddr); ok && isFieldAccess(ia.X, extT, "extensionIDs") {
+				keyVals, walked := deepSliceA6(lk.Index, lc[0].chain)
+				for w := range keyVals {
+					if ia, ok := w.(*ssa.IndexAddr); ok && isIDs(ia.X) {
+						okProv = true
+					}
+				}
+				for _, w := range walked {
+					if isIDs(w) {
 						okProv = true
 					}
 				}
 			}
 		}
-		c.Check(okProv, "Extensions."+spec.name+" invokes the extension at the walked position", p.Pos(lc[0].Pos()), "extMap[extensionIDs[i]]", "the invoked extension is not the one at the walked position")
+		c.Check(okProv, "Extensions."+spec.name+" invokes the extension at the walked position", p.Pos(lc[0].call.Pos()), "extMap[extensionIDs[i]]", "the invoked extension is not the one at the walked position")
 	}
 	// computeOrder: edge direction and order copy
 	{
@@ -389,6 +400,9 @@ func runC10(c *Ctx) {
 						if f == nil || f.Pkg() == nil || (f.Pkg().Path() != "sort" && f.Pkg().Path() != "slices") {
 							return false
 						}
+						if cl, isCall := ci.(*ssa.Call); isCall && readOnlyIterA6(cl) {
+							return false // `range slices.Backward(ids)` reads the order
+						}
 						for _, a := range ci.Common().Args {
 							v := strip(a)
 							if mi, ok := v.(*ssa.MakeInterface); ok {
@@ -427,46 +441,47 @@ func runC10(c *Ctx) {
 			continue
 		}
 		fn := p.SSAFunc(m)
-		lc := lifecycleCalls(fn, spec.life)
+		// the lifecycle call may live in an extracted helper or in the body of a range-over-func loop; the
+		// policy is then judged level by level across the calls (robust_A6.go)
+		lc := lifecycleCallsDeepA6(fn, spec.life)
 		if len(lc) != 1 {
 			c.Bad(spec.typ+"."+spec.name+" lifecycle call", p.Pos(fn.Pos()), "not exactly one call site")
 			continue
 		}
-		call := lc[0]
+		call := lc[0].call
 		if spec.life == "Start" {
-			// failing side returns a non-nil error deriving from the Start error, without continuing
-			found := false
-			for _, r := range returnsOf(fn) {
-				if !errGuardOn(r.Block(), call, false) {
-					continue
-				}
-				found = true
-				ok, why := errChainReaches(resultsOf(r)[0], func(v ssa.Value) bool { return valueIsResultOf(v, call) }, nil)
-				c.Check(ok, spec.typ+"."+spec.name+": a failing Start aborts start-up with that error", p.Pos(r.Pos()), "returns the (wrapped) error", why)
-			}
-			if !found {
-				c.Bad(spec.typ+"."+spec.name+": a failing Start aborts start-up with that error", p.Pos(call.Pos()), "no return on the err!=nil side of Start: start-up continues after a failure")
-			}
-			// the loop cannot continue from the failing side
-			iff := errIfOf(call)
-			if iff != nil {
-				failSucc := iff.Block().Succs[0]
-				if g := (Guard{Cond: iff.Cond, Branch: true, If: iff}); true {
-					if op, _, _, _ := cmpOf(g); op == token.EQL {
-						failSucc = iff.Block().Succs[1]
+			// failing side returns a non-nil error deriving from the Start error, without continuing:
+			// innermost level first, then every helper call on the way out (a range-over-func body returns
+			// for its parent, so the parent level needs no check of its own)
+			var at ssa.CallInstruction = call
+			for i := len(lc[0].chain); i >= 0; i-- {
+				if i < len(lc[0].chain) {
+					if lc[0].chain[i].yield {
+						continue
 					}
+					at = lc[0].chain[i].at
 				}
-				again := len(failSucc.Instrs) > 0 && canReach(failSucc.Instrs[0], call, nil)
-				c.Check(!again, spec.typ+"."+spec.name+": no further Start after a failure", p.Pos(iff.Pos()), "failing side leaves the loop", "the loop keeps starting components after one failed")
+				cur := at
+				found, chainOK, why, retPos, iff, again := startAbortA6(cur, func(v ssa.Value) bool { return valueIsResultOf(v, cur) })
+				if !found {
+					c.Bad(spec.typ+"."+spec.name+": a failing Start aborts start-up with that error", p.Pos(cur.Pos()), "no return on the err!=nil side of Start: start-up continues after a failure")
+				} else {
+					c.Check(chainOK, spec.typ+"."+spec.name+": a failing Start aborts start-up with that error", p.Pos(retPos), "returns the (wrapped) error", why)
+				}
+				// the loop cannot continue from the failing side
+				if iff != nil {
+					c.Check(!again, spec.typ+"."+spec.name+": no further Start after a failure", p.Pos(iff.Pos()), "failing side leaves the loop", "the loop keeps starting components after one failed")
+				}
 			}
 		} else {
-			c.Check(loopHasOnlyConditionExit(call.Block()), spec.typ+"."+spec.name+": a failing Shutdown does not stop the remaining shutdowns", p.Pos(call.Pos()), "loop exits only at its condition", "the shutdown loop can exit early (return/break): remaining components are never shut down")
+			c.Check(loopVisitsAllA6(lc[0]), spec.typ+"."+spec.name+": a failing Shutdown does not stop the remaining shutdowns", p.Pos(call.Pos()), "loop exits only at its condition", "the shutdown loop can exit early (return/break): remaining components are never shut down")
 			// error aggregated into the returned value
 			rs := returnsOf(fn)
 			agg := false
+			isFailure := failureValueA6(lc[0])
 			for _, r := range rs {
 				res := resultsOf(r)[0]
-				if ok, _ := errChainReaches(res, func(v ssa.Value) bool { return valueIsResultOf(v, call) }, nil); ok {
+				if ok, _ := errChainReaches(res, isFailure, nil); ok {
 					agg = true
 				}
 			}
@@ -524,27 +539,31 @@ func runC10(c *Ctx) {
 					if life == "Shutdown" {
 						onceField = "stopOnce"
 					}
-					inOnce := false
-					if par := fn.Parent(); par != nil {
-						allInstrs(par, func(in ssa.Instruction) {
-							ci, ok := in.(ssa.CallInstruction)
-							if !ok || !isMethod(calleeOf(ci), "sync", "Once", "Do") {
-								return
-							}
-							if !isFieldAccess(ci.Common().Args[0], compT, onceField) {
-								return
-							}
-							if mc, ok := ci.Common().Args[1].(*ssa.MakeClosure); ok && mc.Fn == fn {
-								inOnce = true
-							}
-						})
-					}
+					// the function handed to <once>.Do (closure or method value), or an unexported function that is
+					// only ever called from it (robust_A6.go); links = the call sites from the Once body down to fn
+					links, inOnce := onceBodyA6(p.AllSrcFuncs(spk), fn, func(ci ssa.CallInstruction) bool {
+						return isMethod(calleeOf(ci), "sync", "Once", "Do") && len(ci.Common().Args) == 2 && isFieldAccess(ci.Common().Args[0], compT, onceField)
+					}, 3)
 					c.Check(inOnce, "wrapped "+life+" only inside "+onceField+".Do", p.Pos(call.Pos()), "inside the once closure", "the shared component's "+life+" can run more than once")
 					if life == "Shutdown" {
-						c.Check(len(guardsOf(call.Block())) == 0, "wrapped Shutdown runs on every path of the stop closure", p.Pos(call.Pos()), "unconditional", "the wrapped component's Shutdown is skipped on some path (e.g. when it was never started): and stopOnce makes that permanent")
+						uncond := len(guardsOf(call.Block())) == 0
+						body := []*ssa.Function{fn}
+						for _, l := range links {
+							uncond = uncond && len(guardsOf(l.Block())) == 0
+							body = append(body, l.Parent())
+						}
+						c.Check(uncond, "wrapped Shutdown runs on every path of the stop closure", p.Pos(call.Pos()), "unconditional", "the wrapped component's Shutdown is skipped on some path (e.g. when it was never started): and stopOnce makes that permanent")
 						// removeFunc call unconditional
-						rm := calls(fn, func(ci ssa.CallInstruction) bool { return isFieldAccess(ci.Common().Value, compT, "removeFunc") })
-						c.Check(len(rm) == 1 && len(guardsOf(rm[0].Block())) == 0, "shared component is removed from the map on shutdown", p.Pos(call.Pos()), "unconditional removeFunc()", "map entry is not removed on every path")
+						var rm []ssa.CallInstruction
+						seenBody := map[*ssa.Function]bool{}
+						for _, g := range body {
+							if seenBody[g] {
+								continue
+							}
+							seenBody[g] = true
+							rm = append(rm, calls(g, func(ci ssa.CallInstruction) bool { return isFieldAccess(ci.Common().Value, compT, "removeFunc") })...)
+						}
+						c.Check(len(rm) == 1 && len(guardsOf(rm[0].Block())) == 0 && uncond, "shared component is removed from the map on shutdown", p.Pos(call.Pos()), "unconditional removeFunc()", "map entry is not removed on every path")
 					}
 				}
 			}
